@@ -1081,9 +1081,20 @@ class AttrParser(BaseParser):
             )
             res = DenseArrayBase.from_list(element_type, values)
         else:
+
+            def parse_element() -> float:
+                if self._current_token.text[:2] in ("0x", "0X"):
+                    # A hexadecimal literal gives the bit pattern of the float
+                    bits = self.parse_integer(allow_boolean=False, allow_negative=False)
+                    try:
+                        raw = bits.to_bytes(element_type.compile_time_size, "little")
+                    except OverflowError:
+                        self.raise_error("Hexadecimal float literal out of range")
+                    return next(element_type.iter_unpack(raw))
+                return self.parse_float()
+
             values = self.parse_comma_separated_list(
-                self.Delimiter.NONE,
-                lambda: self.parse_float(),
+                self.Delimiter.NONE, parse_element
             )
             res = DenseArrayBase.from_list(element_type, values)
 
